@@ -874,6 +874,14 @@ func (e *Engine) valueEq(a, b Value) *Term {
 		if y, ok := b.(OpaqueV); ok {
 			return tt.Bool(x.kind == y.kind && x.data == y.data)
 		}
+	case *ArrayV:
+		if y, ok := b.(*ArrayV); ok && len(x.elems) == len(y.elems) {
+			conj := []*Term{}
+			for i := range x.elems {
+				conj = append(conj, e.valueEq(x.elems[i], y.elems[i]))
+			}
+			return tt.And(conj...)
+		}
 	}
 	e.unsupported(fmt.Sprintf("== on %T,%T", a, b))
 	return nil
